@@ -81,8 +81,17 @@ void SignalHandlerFunc(int signo)
 #endif
 
     //! 再执行自己的
-    for (int fd : this_signal_ctx.write_fds) {
-        auto wsize = write(fd, &signo, sizeof(signo));
+    //! 注意: 必须先将 write_fds 复制一份，再逐个通知。
+    //!       因为一旦某个 Loop 被通知，它就可能在自己的线程中退订该信号（比如 Oneshot 事件），
+    //!       从而修改甚至销毁 this_signal_ctx，而此时本函数还在遍历它
+    const size_t fd_num = this_signal_ctx.write_fds.size();
+    int fds[fd_num + 1];
+    size_t i = 0;
+    for (int fd : this_signal_ctx.write_fds)
+        fds[i++] = fd;
+
+    for (i = 0; i < fd_num; ++i) {
+        auto wsize = write(fds[i], &signo, sizeof(signo));
         (void)wsize;    //! 消除编译警告
     }
 }
